@@ -8,6 +8,7 @@ import PhysisModel.Spec.Deflate
 import PhysisModel.Model.GameDataExcel
 import PhysisModel.Model.Inflate
 import PhysisModel.Driver.C01
+import PhysisModel.Base.Mutate
 /-!
 Driver for C05.  Case grammar (single spaces, `-` = empty list):
 
@@ -24,6 +25,11 @@ Driver for C05.  Case grammar (single spaces, `-` = empty list):
   `<version> <name hex>:<id>,…` (what `get_all_sheet_names` / `read_excel_sheet_header` iterate over)
 * `sheets <platform 0..4> <dirs> <calls> <record>…` — sheets stored in a synthetic installation and
   read through `GameData` (see the section "sheets in an archive" below for the record grammar)
+* `mut <seed> <k> row …` / `mut <seed> <k> exh …` / `mut <seed> <k> names …` — the same encoded
+  file(s) with `k` bytes damaged (`Base/Mutate.lean`; for `row` the header when `seed` is even,
+  the page when it is odd; the query id is kept); expected = the answer of the model of the code on
+  the damaged file (tags `corr mut`); `read_row` returns `None` where it used to panic (fix
+  d7f255a), so the model's `panic` and `none` are one answer here
 -/
 namespace Physis.Driver.C05
 open Physis Physis.Proto Physis.Spec.Excel
@@ -464,6 +470,80 @@ def handleSheets (pl dirs calls : String) (records : List String) : Option Strin
 
 end archive
 
+/-- `row …` (and `mut <seed> <k> row …`: `k` damaged bytes in the header — even `seed` — or in the
+page — odd `seed`; the query id is kept) -/
+def handleRow (sub ver dof cols pages langs rc rows q : String) (dmg : Option (UInt64 × Nat) := none) : String :=
+  match parseSchema sub ver dof cols pages langs rc, (splitList rows ";").mapM parseRow, natLt q (2 ^ 32) with
+  | some s, some rs, some qn =>
+    if decide (WFschema s) && decide (WFrows s rs) then
+      let q := UInt32.ofNat qn
+      if let some (seed, k) := dmg then
+        let inHeader := seed % 2 == 0
+        let exh := if inHeader then Mutate.mutate (encodeExh s) seed k else encodeExh s
+        let exd := if inHeader then encodeExd s rs else Mutate.mutate (encodeExd s rs) seed k
+        -- `read_row` returns `None` where it used to panic (fix d7f255a): one answer
+        let model := match Exh.fromExisting exh with
+          | none => "parse-none:exh"
+          | some h =>
+            match Exd.fromExisting exd with
+            | none => "parse-none:exd"
+            | some d =>
+              match Exd.readRow d h q with
+              | .ok subs => showSubs showData subs
+              | .error _ => "none"
+        answer s!"row {Bytes.toHex exh} {Bytes.toHex exd} {qn}" model ["corr", "mut"]
+      else
+      let exh := encodeExh s
+      let exd := encodeExd s rs
+      let hit := rs.find? (fun r => r.id == q)
+      let expected := match hit with
+        | some r => showSubs showCell r.subs
+        | none => "none"
+      let tags := match hit with
+        | some r => if singleSubrow s r then ["kf:exd.single-subrow"] else []
+        | none => []
+      let model := match Exh.fromExisting exh, Exd.fromExisting exd with
+        | some h, some d => showR (Exd.readRow d h q)
+        | _, _ => "parse-none"
+      answer s!"row {Bytes.toHex exh} {Bytes.toHex exd} {qn}" expected tags (some model)
+    else bad
+  | _, _, _ => bad
+
+/-- `exh …` (and `mut <seed> <k> exh …`) -/
+def handleExh (sub ver dof cols pages langs rc : String) (dmg : Option (UInt64 × Nat) := none) : String :=
+  match parseSchema sub ver dof cols pages langs rc with
+  | some s =>
+    if decide (WFschema s) then
+      let exh := match dmg with
+        | some (seed, k) => Mutate.mutate (encodeExh s) seed k
+        | none => encodeExh s
+      let model := match Exh.fromExisting exh with
+        | some h => showExhModel h
+        | none => "none"
+      if dmg.isSome then answer s!"exh {Bytes.toHex exh}" model ["corr", "mut"] else
+      answer s!"exh {Bytes.toHex exh}" (showExhSpec s) [] (some model)
+    else bad
+  | none => bad
+
+/-- `names …` (and `mut <seed> <k> names …`: damaged bytes of the root list text) -/
+def handleNames (ver ents : String) (dmg : Option (UInt64 × Nat) := none) : String :=
+  match ver.toInt?, (splitList ents ",").mapM (fun e => do
+      let (n, i) ← pair e ":"
+      some ((← Bytes.ofHexFast n), (← i.toInt?))) with
+  | some v, some es =>
+    if decide (WFrootList v es) then
+      let showEs := fun (l : List (Bytes × Int)) =>
+        if l.isEmpty then "-" else ",".intercalate (l.map (fun e => s!"{Bytes.toHex e.1}:{e.2}"))
+      let file := match dmg with
+        | some (seed, k) => Mutate.mutate (encodeRootList v es) seed k
+        | none => encodeRootList v es
+      let m := ExcelRootList.fromExisting file
+      if dmg.isSome then answer s!"exl {Bytes.toHex file}" s!"{m.version} {showEs m.entries}" ["corr", "mut"] else
+      answer s!"exl {Bytes.toHex file}" s!"{v} {showEs es}" []
+        (some s!"{m.version} {showEs m.entries}")
+    else bad
+  | _, _ => bad
+
 /-- one case line in, one answer line out (see `Base/Proto.lean`) -/
 def handle (line : String) : String :=
   match fields line with
@@ -471,37 +551,20 @@ def handle (line : String) : String :=
     match handleSheets pl dirs calls records with
     | some r => r
     | none => bad
-  | ["row", sub, ver, dof, cols, pages, langs, rc, rows, q] =>
-    match parseSchema sub ver dof cols pages langs rc, (splitList rows ";").mapM parseRow, natLt q (2 ^ 32) with
-    | some s, some rs, some qn =>
-      if decide (WFschema s) && decide (WFrows s rs) then
-        let q := UInt32.ofNat qn
-        let exh := encodeExh s
-        let exd := encodeExd s rs
-        let hit := rs.find? (fun r => r.id == q)
-        let expected := match hit with
-          | some r => showSubs showCell r.subs
-          | none => "none"
-        let tags := match hit with
-          | some r => if singleSubrow s r then ["kf:exd.single-subrow"] else []
-          | none => []
-        let model := match Exh.fromExisting exh, Exd.fromExisting exd with
-          | some h, some d => showR (Exd.readRow d h q)
-          | _, _ => "parse-none"
-        answer s!"row {Bytes.toHex exh} {Bytes.toHex exd} {qn}" expected tags (some model)
-      else bad
-    | _, _, _ => bad
-  | ["exh", sub, ver, dof, cols, pages, langs, rc] =>
-    match parseSchema sub ver dof cols pages langs rc with
-    | some s =>
-      if decide (WFschema s) then
-        let exh := encodeExh s
-        let model := match Exh.fromExisting exh with
-          | some h => showExhModel h
-          | none => "none"
-        answer s!"exh {Bytes.toHex exh}" (showExhSpec s) [] (some model)
-      else bad
-    | none => bad
+  | ["row", sub, ver, dof, cols, pages, langs, rc, rows, q] => handleRow sub ver dof cols pages langs rc rows q
+  | ["exh", sub, ver, dof, cols, pages, langs, rc] => handleExh sub ver dof cols pages langs rc
+  | ["mut", seed, k, "row", sub, ver, dof, cols, pages, langs, rc, rows, q] =>
+    match seed.toNat?, k.toNat? with
+    | some s, some k => handleRow sub ver dof cols pages langs rc rows q (some (s.toUInt64, k))
+    | _, _ => bad
+  | ["mut", seed, k, "exh", sub, ver, dof, cols, pages, langs, rc] =>
+    match seed.toNat?, k.toNat? with
+    | some s, some k => handleExh sub ver dof cols pages langs rc (some (s.toUInt64, k))
+    | _, _ => bad
+  | ["mut", seed, k, "names", ver, ents] =>
+    match seed.toNat?, k.toNat? with
+    | some s, some k => handleNames ver ents (some (s.toUInt64, k))
+    | _, _ => bad
   | ["fname", name, lang, start] =>
     match Bytes.ofHexFast name, lang.toNat?.bind langOfCode, natLt start (2 ^ 32) with
     | some n, some l, some st =>
@@ -511,19 +574,7 @@ def handle (line : String) : String :=
         | none => "none"
       answer "=" (Bytes.toHex expected) [] (some model)
     | _, _, _ => bad
-  | ["names", ver, ents] =>
-    match ver.toInt?, (splitList ents ",").mapM (fun e => do
-        let (n, i) ← pair e ":"
-        some ((← Bytes.ofHexFast n), (← i.toInt?))) with
-    | some v, some es =>
-      if decide (WFrootList v es) then
-        let showEs := fun (l : List (Bytes × Int)) =>
-          if l.isEmpty then "-" else ",".intercalate (l.map (fun e => s!"{Bytes.toHex e.1}:{e.2}"))
-        let m := ExcelRootList.fromExisting (encodeRootList v es)
-        answer s!"exl {Bytes.toHex (encodeRootList v es)}" s!"{v} {showEs es}" []
-          (some s!"{m.version} {showEs m.entries}")
-      else bad
-    | _, _ => bad
+  | ["names", ver, ents] => handleNames ver ents
   | _ => bad
 
 end Physis.Driver.C05
